@@ -147,6 +147,11 @@ def run(idx, rep, tier):
     else:
         rep.undecided("trimming", "lanczos:trim", "trimming assignment not found")
     buffer_dtype_obligations(idx, rep, init, "buffer-dtype")
+    # ---- the loop stops at an exact breakdown
+    from sa.krylov import breakdown_stops
+    _loops = lp.find_loops(idx, fact)
+    _cert = lp.cap_certificate(idx, _loops[0]) if _loops else {"ok": None}
+    breakdown_stops(idx, rep, fact, "breakdown-stops", f"{fact.short}:cond", _cert.get("counter_slot") if _cert.get("ok") is True else None)
     # ---- HOMOG in the scale of the operator: floors inside the factorisation loop must scale with what they guard
     from sa.homog import krylov_floor_obligations
     krylov_floor_obligations(idx, rep, fact, init, "scale-floor")
